@@ -20,7 +20,7 @@ pub struct Dims {
     pub query_carrier: bool,
     pub path: u8,     // 0 ok, 1 %zz, 2 trailing %, 3 above root, 4 relative '*'
     pub query: u8,    // 0 ok, 1 %zz, 2 trailing %
-    pub carrier: u8,  // 0 one, 1 none, 2 both, 3 both (the other carrier present but not SigV4)
+    pub carrier: u8,  // 0 one, 1 none, 2 both, 3 both (the other carrier present but not SigV4), 4 / 5 both (header carrier only: X-Amz-Algorithm present with an empty value / as a bare name)
     pub alg: u8,      // 0 ok, 1 other, 2 the right name in lower case, 3 the right name with a suffix
     pub syntax: u8,   // 0 ok, 1 token without '=' (header carrier only)
     pub missing: u8,  // bit 0 credential, 1 signature, 2 signed headers, 3 date; bit 4: what is missing is present in the OTHER carrier's spelling (all four when nothing is missing) -- a decoy that must not be consulted
@@ -294,10 +294,12 @@ pub fn materialize(d: &Dims) -> Option<Case> {
             }
             match d.carrier {
                 1 => w.headers.retain(|h| h.0 != "Authorization"),
-                2 | 3 => {
+                2 | 3 | 4 | 5 => {
+                    // 4 / 5 (round 14): the second carrier's marker present with an EMPTY value / as a bare name —
+                    // a parameter that is present counts as the second carrier whatever it holds
                     let sep = if w.uri.contains('?') { "&" } else { "?" };
-                    let alg = if d.carrier == 2 { "AWS4-HMAC-SHA256" } else { "AWS3-HMAC-MD5" };
-                    w.uri = format!("{}{}X-Amz-Algorithm={}", w.uri, sep, alg);
+                    let alg = ["=AWS4-HMAC-SHA256", "=AWS3-HMAC-MD5", "=", ""][d.carrier as usize - 2];
+                    w.uri = format!("{}{}X-Amz-Algorithm{}", w.uri, sep, alg);
                 }
                 _ => {}
             }
@@ -529,7 +531,7 @@ fn dims_space(thorough: bool, query_carrier: bool) -> Vec<Vec<u8>> {
         vec![
             if query_carrier { vec![0, 1, 2, 3] } else { full(5) },
             full(3),
-            full(4),
+            if query_carrier { full(4) } else { full(6) },
             full(4),
             if query_carrier { vec![0] } else { full(2) },
             (0..16).chain([16, 17, 18, 20, 24, 31]).collect(),
@@ -544,7 +546,7 @@ fn dims_space(thorough: bool, query_carrier: bool) -> Vec<Vec<u8>> {
         vec![
             if query_carrier { vec![0, 1, 3] } else { vec![0, 1, 3, 4] },
             vec![0, 1],
-            full(4),
+            if query_carrier { full(4) } else { full(6) },
             vec![0, 1, 2],
             if query_carrier { vec![0] } else { full(2) },
             vec![0, 1, 2, 4, 8, 15, 16, 24, 31],
@@ -772,7 +774,7 @@ pub fn run(ctx: &Ctx) -> Report {
     Report {
         stats: st,
         rule: format!(
-            "precedence automaton over the 14 documented stages; full product of defect vectors per carrier ({} header-carrier, {} query-carrier vectors): path {{ok, %zz, trailing %, above root, '*'}} x query {{ok, %zz, trailing %}} x carrier {{one, none, both, both with a non-SigV4 second carrier}} x algorithm x parameter syntax x missing ⊆ {{credential, signature, signed headers, date}}, each also with what is missing (or all four) present in the other carrier's spelling as a decoy (X-Amz-* query parameters next to header authentication, X-Amz-Date / Date headers next to query authentication) x requirements {{ok, host, always, conditional, prefix unsigned}} x date {{in window, malformed, expired, future, well-formed + trailing characters, well-formed cut short, expired / future by half a second}} x credential {{ok, 4 parts, 6 parts, region, service, terminator, date, all wrong, date with a leading zero / a plus sign / a blank in place of a zero pad}} x provider {{key, ExpiredToken, InvalidClientTokenId, IO, MalformedQueryString, foreign}} x signature {{ok, wrong, too long, empty, truncated}} x session token {{absent, present}}{}; every vector with at most two defects is validated right after the fully valid request on the same thread; every vector is materialised as a concrete request (correctly signed wherever a signature is still meaningful; 1 in 16 cross-checked against the reference verifier) and replayed on sigv4_validate_request: kind, code, status, downcast to SignatureError, status class and provider consultation compared with the automaton's terminal; plus 5 defective paths x 4 form content types (unknown / empty / no / UTF-8 charset) x 3 bodies (fine, undecodable, bad escape) with folding on, which are refused for their path; plus 11 methods (GET, HEAD, POST, PUT, ..., an extension method, a lower-case one) x 6 folded form bodies that carry a rule-4 / rule-5 / rule-7 defect, a whole query carrier or nothing wrong x with / without an Authorization header, judged by the reference verifier; plus the kind->(code,status) table for every variant directly and through From<Box<dyn Error>>. states = (stage, vector prefix) pairs of the model; transitions = stage steps",
+            "precedence automaton over the 14 documented stages; full product of defect vectors per carrier ({} header-carrier, {} query-carrier vectors): path {{ok, %zz, trailing %, above root, '*'}} x query {{ok, %zz, trailing %}} x carrier {{one, none, both, both with a non-SigV4 second carrier, both with an empty / bare X-Amz-Algorithm next to the Authorization header}} x algorithm x parameter syntax x missing ⊆ {{credential, signature, signed headers, date}}, each also with what is missing (or all four) present in the other carrier's spelling as a decoy (X-Amz-* query parameters next to header authentication, X-Amz-Date / Date headers next to query authentication) x requirements {{ok, host, always, conditional, prefix unsigned}} x date {{in window, malformed, expired, future, well-formed + trailing characters, well-formed cut short, expired / future by half a second}} x credential {{ok, 4 parts, 6 parts, region, service, terminator, date, all wrong, date with a leading zero / a plus sign / a blank in place of a zero pad}} x provider {{key, ExpiredToken, InvalidClientTokenId, IO, MalformedQueryString, foreign}} x signature {{ok, wrong, too long, empty, truncated}} x session token {{absent, present}}{}; every vector with at most two defects is validated right after the fully valid request on the same thread; every vector is materialised as a concrete request (correctly signed wherever a signature is still meaningful; 1 in 16 cross-checked against the reference verifier) and replayed on sigv4_validate_request: kind, code, status, downcast to SignatureError, status class and provider consultation compared with the automaton's terminal; plus 5 defective paths x 4 form content types (unknown / empty / no / UTF-8 charset) x 3 bodies (fine, undecodable, bad escape) with folding on, which are refused for their path; plus 11 methods (GET, HEAD, POST, PUT, ..., an extension method, a lower-case one) x 6 folded form bodies that carry a rule-4 / rule-5 / rule-7 defect, a whole query carrier or nothing wrong x with / without an Authorization header, judged by the reference verifier; plus the kind->(code,status) table for every variant directly and through From<Box<dyn Error>>. states = (stage, vector prefix) pairs of the model; transitions = stage steps",
             sizes[0], sizes[1], if thorough { "" } else { " (quick: a sub-lattice with at least one defect variant per stage and missing ∈ {none, each singleton, all})" }
         ),
         bounds: json!({"header_vectors": sizes[0], "query_vectors": sizes[1]}),
